@@ -264,6 +264,132 @@ func timerJobReuse() ([]timerProblem, error) {
 	return probs, nil
 }
 
+// C04: polling pulls in the last milliseconds before a retry deadline get nothing. The stored
+// deadline (attempt_at, real time: no clock shift in this scenario) is read from the database;
+// only probes that demonstrably RETURNED before it are counted, so a slow machine can only
+// make the scenario void, never alarm.
+func timerEarlyPoll() ([]timerProblem, error) {
+	mn, mx := 400*time.Millisecond, 500*time.Millisecond
+	t, err := newTimerEnv(&SubReq{Retry: &[2]*time.Duration{&mn, &mx}})
+	if err != nil {
+		return nil, err
+	}
+	defer t.e.Close()
+	var probs []timerProblem
+	for round := 0; round < 3 && len(probs) == 0; round++ {
+		if err := t.publish(fmt.Sprintf(`{"m":%d}`, round)); err != nil {
+			return nil, err
+		}
+		ms, err := t.pullNow()
+		if err != nil {
+			return nil, err
+		}
+		if len(ms) != 1 {
+			return nil, fmt.Errorf("early-poll: the first pull returned %d messages", len(ms))
+		}
+		d, err := t.e.Dump(context.Background())
+		if err != nil {
+			return nil, err
+		}
+		var deadline time.Time
+		for _, x := range d.Dels {
+			if x.ID.String() == ms[0].AckId {
+				deadline = t.e.ToReal(x.AttemptAt)
+			}
+		}
+		if deadline.IsZero() {
+			return nil, fmt.Errorf("early-poll: the leased delivery was not found")
+		}
+		// probe from 25 ms before the deadline on, back to back
+		time.Sleep(time.Until(deadline.Add(-25 * time.Millisecond)))
+		for time.Now().Before(deadline.Add(-500 * time.Microsecond)) {
+			got, err := t.pullNow()
+			done := time.Now()
+			if err != nil {
+				return nil, err
+			}
+			if len(got) > 0 && done.Before(deadline) {
+				probs = append(probs, timerProblem{"lease-violated", fmt.Sprintf("a pull that returned %v BEFORE the stored retry deadline of attempt 1 (backoff 440 ms) was handed the message as attempt %d",
+					deadline.Sub(done).Round(100*time.Microsecond), got[0].DeliveryAttempt)})
+				break
+			}
+			if len(got) > 0 {
+				break
+			}
+		}
+		// settle: acknowledge whatever is outstanding
+		time.Sleep(60 * time.Millisecond)
+		if got, _ := t.pullNow(); len(got) > 0 {
+			t.e.Sub.Acknowledge(context.Background(), &pubsubpb.AcknowledgeRequest{Subscription: t.sub, AckIds: []string{got[0].AckId}})
+		} else {
+			t.e.Sub.Acknowledge(context.Background(), &pubsubpb.AcknowledgeRequest{Subscription: t.sub, AckIds: []string{ms[0].AckId}})
+		}
+	}
+	return probs, nil
+}
+
+// C02 / C06: a pull that is already waiting uses the subscription's CURRENT configuration when
+// it wakes up: the dead-letter policy is removed while the pull waits for a lease to lapse;
+// the message is then redelivered to the waiter, not forwarded to the former dead-letter topic
+func timerPolicyRemovedDuringWait() ([]timerProblem, error) {
+	mn, mx := 300*time.Millisecond, 400*time.Millisecond
+	e, err := NewEnv(true)
+	if err != nil {
+		return nil, err
+	}
+	defer e.Close()
+	ctx := context.Background()
+	t := &timerEnv{e: e, topic: "projects/p/topics/tm", sub: "projects/p/subscriptions/tm"}
+	dlt, dls := "projects/p/topics/tmdl", "projects/p/subscriptions/tmdl"
+	pre, _ := e.Dump(ctx)
+	for _, op := range []*Op{{Kind: "CreateTopic", Name: t.topic}, {Kind: "CreateTopic", Name: dlt},
+		{Kind: "CreateSub", Sub: &SubReq{Name: t.sub, Topic: t.topic, Retry: &[2]*time.Duration{&mn, &mx}, DL: dl(dlt, 1)}},
+		{Kind: "CreateSub", Sub: &SubReq{Name: dls, Topic: dlt}}} {
+		if o, err := e.Exec(ctx, op, pre); err != nil || o.Resp.Kind == "err" {
+			return nil, fmt.Errorf("%s: %v", op.Kind, err)
+		}
+	}
+	if err := t.publish(`{"m":"A"}`); err != nil {
+		return nil, err
+	}
+	ms, err := t.pullNow()
+	if err != nil || len(ms) != 1 {
+		return nil, fmt.Errorf("first pull: %v (%d messages)", err, len(ms))
+	}
+	type pr struct {
+		ms []*pubsubpb.ReceivedMessage
+		el time.Duration
+		e  error
+	}
+	ch := make(chan pr, 1)
+	go func() { m, el, e := t.waitingPull(2500 * time.Millisecond); ch <- pr{m, el, e} }()
+	time.Sleep(80 * time.Millisecond) // the pull is waiting; the lease has ~250 ms to run
+	d, _ := e.Dump(ctx)
+	if o, err := e.Exec(ctx, &Op{Kind: "UpdateSub", Sub: &SubReq{Name: t.sub, Topic: t.topic}, Paths: []string{"dead_letter_policy"}}, d); err != nil || o.Resp.Kind == "err" {
+		return nil, fmt.Errorf("UpdateSubscription: %v", err)
+	}
+	r := <-ch
+	if r.e != nil {
+		return nil, r.e
+	}
+	time.Sleep(50 * time.Millisecond)
+	fin, _ := e.Dump(ctx)
+	var probs []timerProblem
+	ds := fin.subByName(dls)
+	forwarded := 0
+	for _, x := range fin.Dels {
+		if ds != nil && x.Sub == ds.ID {
+			forwarded++
+		}
+	}
+	if forwarded > 0 {
+		probs = append(probs, timerProblem{"stale-config-in-waiting-pull", fmt.Sprintf("the dead-letter policy was removed while a pull was waiting; when the lease lapsed the waiting pull still forwarded the message to the former dead-letter topic (%d deliveries there) instead of redelivering it", forwarded)})
+	} else if len(r.ms) != 1 {
+		probs = append(probs, timerProblem{"lease-timer-missed", fmt.Sprintf("the waiting pull returned %d messages after %v (the lease of 330 ms lapsed, no dead-letter policy any more)", len(r.ms), r.el.Round(time.Millisecond))})
+	}
+	return probs, nil
+}
+
 func cmdTimers(args []string) error {
 	fs := flag.NewFlagSet("timers", flag.ExitOnError)
 	out := fs.String("out", "", "")
@@ -283,6 +409,8 @@ func cmdTimers(args []string) error {
 		{"retention-during-wait", timerRetentionDuringWait},
 		{"delivery-delay", timerDelay},
 		{"job-object-reuse", timerJobReuse},
+		{"early-poll", timerEarlyPoll},
+		{"policy-removed-during-wait", timerPolicyRemovedDuringWait},
 	}
 	var scs []sc
 	for i := 0; i < *reps; i++ {
